@@ -42,7 +42,14 @@ def checkWellFormed (before after : IR) (emptied : Nat → Bool) (needAddr closu
     match before.block? b.id with
     | some ob => if ob.size == 0 || emptied b.id then none
         else some (mk "zero-sized" s!"block {b.id}" s!"block {b.id} became zero-sized although not all of its bytes were deleted")
-    | none => some (mk "zero-sized" s!"block {b.id}" s!"a new block ({b.id}) is zero-sized"))
+    | none =>
+      -- a patch's branch target with no code behind it (the rest of the block and of the section was deleted,
+      -- or the patch was put at the end of the section) has nowhere to go but a zero-sized block: the case
+      -- "incoming control flow edges but no target for them to be redirected to" of remove.py, for a new block
+      let reached := after.cfg.any (fun e => e.dst == .block b.id && !(GtirbVerif.IR.Edge.isFall e))
+      let codeFollows := after.blocks.any (fun c => c.bi == b.bi && c.isCode && c.size != 0 && c.off ≥ b.off)
+      if reached && !codeFollows then none
+      else some (mk "zero-sized" s!"block {b.id}" s!"a new block ({b.id}) is zero-sized"))
   -- CFG
   let cfgIssues : List Issue := after.cfg.flatMap (fun e =>
     (match e.src with
